@@ -126,9 +126,10 @@ def wf_stop_race(w: int = 3) -> type:
         make_step("work", [Work], [StopEvent, None], work, num_workers=w)])
 
 
-def wf_stop_cleanup_writer() -> type:
-    """one branch returns the StopEvent while another branch is still running; the running branch writes
-    to the stream from its cancellation clean-up, and a third one streams on every loop iteration"""
+def wf_stop_cleanup_writer(end: str = "stop") -> type:
+    """one branch ends the run (StopEvent / unhandled failure; or the run is cancelled / times out from outside) while
+    another branch is still running; the running branch writes to the stream from its cancellation clean-up, and a
+    third one streams on every loop iteration"""
     import asyncio
 
     async def start(self, ctx, ev, inv):  # noqa: ANN001
@@ -139,6 +140,8 @@ def wf_stop_cleanup_writer() -> type:
 
     async def stopper(self, ctx, ev, inv):  # noqa: ANN001
         await gate("stop")
+        if end == "fail":
+            raise RuntimeError("stopper fails, nobody handles it")
         return StopEvent(result="stopped")
 
     async def cleaner(self, ctx, ev, inv):  # noqa: ANN001
@@ -261,6 +264,11 @@ def specs(tier: str) -> list[Spec]:
         Spec("stop_race", {"cause": "stop_race"}, wf_stop_race, max_dev=(4 if tier == "quick" else None)),
         Spec("two_stops", {"cause": "two_stops"}, wf_two_stops, pair=True),
         Spec("stop_vs_cleanup_writer", {"cause": "stop_race"}, wf_stop_cleanup_writer, pair=True),
+        Spec("fail_vs_cleanup_writer", {"cause": "raise_no_retry", "writers": True}, lambda: wf_stop_cleanup_writer("fail"), pair=True),
+        Spec("cancel_vs_cleanup_writer", {"cause": "cancel", "writers": True}, lambda: wf_stop_cleanup_writer("cancel"), scripts=cancel_script,
+             max_dev=(4 if tier == "quick" else None)),
+        Spec("timeout_vs_cleanup_writer", {"cause": "timeout", "writers": True}, lambda: wf_stop_cleanup_writer("timeout"),
+             wf_kw={"timeout": 10.0}, pair_time=True, max_dev=(4 if tier == "quick" else None)),
         Spec("raise_no_retry", {"cause": "raise_no_retry"}, lambda: wf_raise(None)),
         Spec("raise_no_retry_other_worker", {"cause": "raise_no_retry"}, lambda: wf_raise(None, True)),
         Spec("raise_retry_exhausted", {"cause": "raise_retry_exhausted"}, lambda: wf_raise(pol3())),
